@@ -331,6 +331,17 @@ def triple_history(ja, jb, jc, base):
     return ops
 
 
+def cache_history(jc, jplain, jother, base):
+    """jc = job with use_cache=True, jplain = the same without, jother = another cached job parsed in between (or None)"""
+    ops = [("parse_file", base, jc), ("mutate", base, None)]
+    if jother is not None:
+        ops += [("parse_file", base + 4, jother), ("mutate", base + 4, None)]
+    ops += [("parse_file", base + 1, jc), ("mutate", base + 1, None), ("parse_file", base + 2, jplain), ("mutate", base + 2, None),
+            ("parse_file", base + 3, jc)]
+    ops += [("drop", base + k, None) for k in range(5)]
+    return ops
+
+
 def reparse_history(ja, base):
     return [("construct", base, ja), ("parse", base, None), ("mutate", base, None), ("parse", base, None), ("drop", base, None)]
 
@@ -563,6 +574,20 @@ def run(ctx):
     corpus[n0:] = stable
     ctx.log(f"variant files: {len(vjobs)} derived, {len(corpus) - n0} kept ({time.time() - t0:.0f}s since start of fresh phase)")
 
+    # ---- parse_file(..., use_cache=True): part of the argument space (a no-op today); reference = fresh interpreter
+    n1 = len(corpus)
+    cand_c = [k for k in range(n0) if not corpus[k]["args"] and os.path.getsize(corpus[k]["file"]) <= HEAVY_BYTES and not corpus[k]["empty"]]
+    if quick:
+        cand_c = sorted(rng.sample(cand_c, min(10, len(cand_c))))
+    cjobs = [dict(parser=corpus[k]["parser"], fname=corpus[k]["fname"], file=corpus[k]["file"], args={"use_cache": True},
+                  argkey=json.dumps({"use_cache": True}), cached_of=k) for k in cand_c]
+    for c, a in zip(cjobs, pmap(fresh, [(c, "0") for c in cjobs])):
+        if "worker_error" in a or "exc" in a:
+            skipped.append({"job": f"{c['parser']}({c['fname']}, use_cache=True)", "reason": (a.get("exc") or a.get("worker_error"))[:200]})
+            continue
+        corpus.append(dict(c, digest=a["digest"], content=a["file_before"], opaque=a.get("opaque", {}), empty=False))
+    ctx.count("jobs:use_cache", len(corpus) - n1)
+
     pidx = {n: k for k, n in enumerate(sorted({j["parser"] for j in corpus}))}
     fidx = {f: k for k, f in enumerate(sorted({j["file"] for j in corpus}))}
     aidx = {a: k for k, a in enumerate(sorted({j["argkey"] for j in corpus}))}
@@ -614,7 +639,7 @@ def run(ctx):
         # per parser: its example files and their variants - every ordered pair X -> Y -> X (with / without the optional records)
         groups = {}
         for k, j in enumerate(corpus):
-            if k >= n0 or not j["args"] or True:
+            if "cached_of" not in j:
                 groups.setdefault(j["parser"], []).append(k)
         for pname, members in sorted(groups.items()):
             if not any(k >= n0 for k in members):
@@ -626,6 +651,13 @@ def run(ctx):
                     for il in rng.sample(range(NI), 1 if quick else 4):
                         push({"shape": "variant_pair", "A": a, "B": b_, "interleaving": INTERLEAVINGS[il]},
                              lambda b0, a=a, b_=b_, il=il: pair_history(a, b_, il, b0))
+        # use_cache=True: parse, mutate every nested value of the result in place, parse again; mixed with the uncached call
+        cached = [k for k in range(len(corpus)) if "cached_of" in corpus[k]]
+        for c in cached:
+            push({"shape": "use_cache", "A": c}, lambda b0, c=c: cache_history(c, corpus[c]["cached_of"], None, b0))
+        for _ in range(min(len(cached), 6) if quick else 4 * len(cached)):
+            c, d = rng.choice(cached), rng.choice(cached)
+            push({"shape": "use_cache", "A": c, "B": d}, lambda b0, c=c, d=d: cache_history(c, corpus[c]["cached_of"], d, b0))
         light = [k for k in range(n) if k not in heavy]
         by_fam = {}
         for k in light:
